@@ -732,34 +732,6 @@ func c45Harden(g RunnableGraph, mask bool, rec *[]actor.Actor) (RunnableGraph, [
 	return g, boxes
 }
 
-// c45Unwired reports a stage actor that never processed its stageWire message. Run
-// has sent every stageWire before it returns, so a stage that is still unwired
-// seconds later was killed by traffic that overtook its wiring (a nil neighbour PID
-// panics the actor) and the stream can never terminate.
-func c45Unwired(actors []actor.Actor) (string, bool) {
-	for _, a := range actors {
-		switch v := a.(type) {
-		case *flowActor:
-			if v.downstream == nil {
-				return "flowActor", true
-			}
-		case *batchFlowActor[int64]:
-			if v.downstream == nil {
-				return "batchFlowActor", true
-			}
-		case *parallelMapActor[int64, int64]:
-			if v.downstream == nil {
-				return "parallelMapActor", true
-			}
-		case *sinkActor:
-			if v.upstream == nil {
-				return "sinkActor", true
-			}
-		}
-	}
-	return "", false
-}
-
 // c45Livelocked reports a stage whose disposed mailbox still holds messages and
 // is polled by the dispatcher without end.
 func c45Livelocked(boxes []*c45Mailbox) (int, int64, bool) {
